@@ -574,6 +574,7 @@ void funcjnz(struct func *, struct value *, struct type *, struct block *, struc
 void funcret(struct func *, struct value *);
 void funchlt(struct func *);
 struct gotolabel *funcgoto(struct func *, char *);
+void funcvla(struct func *, struct type *);
 void funcchecklabels(struct func *);
 void funcswitch(struct func *, struct value *, struct switchcases *, struct block *);
 void funcinit(struct func *, struct decl *, struct init *, bool);
